@@ -227,6 +227,42 @@ def r07_5(ck, F):
                       f"`{fld}` is set in arm {arm}", body.loc(bb, i))
 
 
+def r07_6(ck, F):
+    ck.rule("R07.6", "each closing event / message records its half-closed condition and re-evaluates reclamation on every "
+            "non-error path through its arm: SenderDropped, ReceiverDropped (handle_event), SendFinish, ReceiveFinish "
+            "(handle_received_msg) all pass the flag update and maybe_free_port before returning Ok",
+            "receiver closed gracefully and then dropped (ReceiveClose, then ReceiveFinish): the fourth condition is never "
+            "recorded, the port entry and its number leak and the dispatcher never terminates", floor=4)
+    he = F.main_body(HANDLE_EVENT)
+    hr = F.main_body(HANDLE_RECEIVED)
+    for body, enum, table in ((he, PORT_EVT, {"SenderDropped": "sender_dropped", "ReceiverDropped": "receiver_dropped"}),
+                              (hr, MUX_MSG, {"SendFinish": "receiver_tx_data", "ReceiveFinish": "remote_receiver_dropped"})):
+        arms, sw, _ = event_arms(body, enum)
+        oks = [bb for bb, i, v in body.result_stores("Ok")]
+        frees = {bb for bb, t in body.calls() if mir.strip_generics(callee(t) or "").endswith("ChMux::maybe_free_port")}
+        for var, fld in table.items():
+            if var not in arms:
+                ck.bad(f"{var}#arm", f"no arm for {var}", body.loc(sw))
+                continue
+            s_, tb, region = arms[var]
+            marks = set()
+            for bb, i, st in body.assigns():
+                if bb in region and len(st["p"]) >= 2 and st["rv"]["r"] == "use" and const_value(body.expr(st["rv"]["o"])) == 1:
+                    if mir.last_field(body.expr(["c", [st["p"][0]]])) == fld:
+                        marks.add(bb)
+            for bb, t in body.calls("std::option::Option::take"):
+                if bb in region and fld in mir.show(body.expr(t["a"][0])):
+                    marks.add(bb)
+            p1 = body.find_path([tb], oks, avoid=marks)
+            p2 = body.find_path([tb], oks, avoid=frees)
+            ck.expect(bool(marks) and p1 is None and p2 is None, f"{var}#records-and-frees",
+                      f"{fld} recorded and maybe_free_port called on every path to Ok",
+                      f"arm {var} can return Ok without recording `{fld}` / without calling maybe_free_port "
+                      f"(path via {body.loc((p1 or p2)[-2]) if (p1 or p2) and len(p1 or p2) > 1 else ''})", body.loc(tb))
+
+
 def run(ck, F):
-    for r in (r07_1, r07_2, r07_3, r07_4, r07_5):
+    import c10
+    for r in (r07_1, r07_2, r07_3, r07_4, r07_5, r07_6):
         ck.run_rule(r)
+    ck.run_rule(c10.r10_2)     # an unanswered request leaks its outstanding entry: shared clause
